@@ -181,7 +181,7 @@ func runWS(rc *core.RunCtx) {
 		sendCh <- func() { client.WriteMessage(m.Type, []byte(m.Data)) }
 		synctest.Wait()
 		// let timers (none configured) and goroutines settle
-		time.Sleep(time.Millisecond)
+		core.Nap(time.Millisecond)
 		synctest.Wait()
 	}
 	mu.Lock()
